@@ -86,7 +86,7 @@ def r_stmt(s, ind, out):
     elif k == 'print': out.append(f'{p}print("hello")')
     elif k == 'stdout': out.append(f'{p}sys.stdout.write("a")')
     elif k == 'stderr': out.append(f'{p}sys.stderr.write("a")')
-    elif k == 'global': out += [f'{p}global G', f'{p}G = 1']
+    elif k == 'global': out.append(f'{p}global G')
     elif k == 'import': out.append(f'{p}import json')
     elif k == 'open_r': out.append(f'{p}open("a.txt")')
     elif k == 'open_w': out.append(f'{p}open("a.txt", "w")')
